@@ -1,6 +1,53 @@
 (* C09 — "the generated downgrade undoes the generated upgrade": the statement over operation
    objects as a Prop, its boolean decider (applied to what the real alembic returned), the exact
-   model-vs-implementation comparison, and the class predicate of the involution theorem.
+   model-vs-implementation comparison, and the class predicates of the theorems.
+
+   INVENTORY of alembic/operations/ops.py and operations/toimpl.py (E = modelled exactly on the stated fields and compared
+   exactly with the real code on every run; P = partially; N = not modelled).
+
+   MigrateOperation subclasses and their methods
+   E  AddConstraintOp.from_constraint (dispatch on the constraint class), .reverse, .to_diff_tuple
+   E  CreatePrimaryKeyOp / CreateUniqueConstraintOp / CreateCheckConstraintOp .from_constraint / .to_constraint:
+        constraint_name, table_name, columns | condition (opaque token), schema, deferrable, initially (`if x:` filter),
+        remaining **kw = dialect kwargs (one opaque token)
+   E  CreateForeignKeyOp.from_constraint / .to_constraint / .to_diff_tuple ("add_fk"): constraint_name, source_table,
+        referent_table, local_cols, remote_cols, source_schema, referent_schema, onupdate, ondelete, initially, match
+        (`if x:` filters), deferrable (`is not None`), dialect kwargs token.  N: use_alter (not DDL)
+   E  DropConstraintOp.from_constraint, .to_constraint (stored `_reverse`, renamed to the op's name/table/schema, also for a
+        self-referential foreign key), .reverse, .to_diff_tuple ("remove_fk" iff type_ == "foreignkey"; ValueError without `_reverse`)
+   E  CreateIndexOp.from_index / .to_index / .reverse / .to_diff_tuple: index_name, table_name (`or "no_table"`), columns
+        (names and text()/expression tokens), schema, unique, if_not_exists, dialect kwargs token
+   E  DropIndexOp.from_index / .to_index / .reverse / .to_diff_tuple: index_name, table_name (None), schema, if_exists, the
+        `unique` entry of kw, dialect kwargs token, stored `_reverse` (its columns; ["x"] without it)
+   P  CreateTableOp.from_table / .to_table / .reverse / .to_diff_tuple: table_name, schema, comment, prefixes, dialect kwargs + info
+        (one token), if_not_exists, _constraints_included, and the Table that to_table() returns: columns {name, type token,
+        nullable, server default token, comment, unique=/index= flags}, non-type-bound constraints, Index objects.
+        Not expressed: _namespace_metadata; the step from raw `columns` elements to the Table (done by SQLAlchemy, observed);
+        foreign key / check constraints with dialect kwargs inside the table (SQLAlchemy's _copy drops them)
+   P  DropTableOp.from_table / .to_table / .reverse / .to_diff_tuple: table_name, schema, if_exists, comment, prefixes, table_kw + info,
+        `_reverse` = (columns, constraints, _constraints_included).  Not expressed: a stored original whose table name differs
+        together with a self-referential foreign key; a stored original with flagged columns and _constraints_included false
+   E  CreateTableCommentOp / DropTableCommentOp .reverse / .to_table / .to_diff_tuple: table_name, comment, existing_comment, schema
+   E  AlterColumnOp.reverse (every existing_/modify_ pair swapped, the rename turned round) / .to_diff_tuple (all four entries):
+        table_name, column_name, schema, existing_type, existing_server_default (False | None | value), existing_nullable,
+        existing_comment, modify_nullable, modify_comment (False | None | value), modify_server_default, modify_name, modify_type,
+        **kw as one token.  N: has_changes(), `modify_*` / `existing_*` keys inside **kw (they would take part in the swap)
+   E  AddColumnOp.reverse / .to_diff_tuple / .from_column_and_tablename / .from_column / .to_column: table_name, column, schema
+   E  DropColumnOp.reverse / .to_diff_tuple / .from_column_and_tablename / .to_column: table_name, column_name, schema, **kw token,
+        `_reverse` (table, column, schema); ValueError without it; Column(name, NULLTYPE) = type token 0
+   E  RenameTableOp, BulkInsertOp: reverse() and to_diff_tuple() raise NotImplementedError; ExecuteSQLOp: reverse() raises,
+        to_diff_tuple() = ("execute", sqltext).  Their payload is opaque (table_name/new_table_name/schema; sqltext; table, rows)
+   P  OpContainer.as_diffs/_ops_as_diffs, ModifyTableOps.reverse, UpgradeOps.reverse_into / .reverse, DowngradeOps.reverse:
+        exact for two levels (container of leaves and ModifyTableOps of leaves); deeper nesting not modelled
+   N  MigrationScript (upgrade_ops / downgrade_ops list accessors), MigrateOperation.info, the classmethods that build an op from
+        the `op.` proxy arguments and invoke it (create_table(), batch_*(), ...): they only construct the objects above
+
+   toimpl functions: each is the projection `ddl_view` (exactly the attributes / to_*() results it hands to the dialect
+   implementation; E for every function) followed by the dialect's SQL spelling (N: measured by comparing SQL on five
+   dialects).  alter_column's dropping/adding of type-bound CHECK constraints (Boolean/Enum) and add_column's emission of the
+   constraints, indexes and comment of the column are inside the opaque type token / column record (P).  The abstract
+   effect of each function on a database state is apply_op in Model/C09Ddl.v (columns, named constraints, indexes, comments).
+
    The statement about database states (C09_undo) lives in Model/C09Ddl.v + Properties/C09.v. *)
 From AV Require Export Model.Ops Spec.C09Dec Model.C09Ddl.
 
@@ -17,9 +64,10 @@ Inductive c09_in := InOp (x : top) | InUp (up : list top) | InAuto (tables : lis
 Definition db_of (tables : list tdesc) : db :=
   fold_left (fun A t => put (qkey (t_schema t) (t_name t)) (ts_of t) A) tables [].
 Inductive c09_out :=
-| OutOp (r rr : res top) (sql_same : bool)
+| OutOp (r rr : res top) (diffs diffs_r : res (list difft)) (sql_same : bool)
     (* abstraction of x.reverse() and x.reverse().reverse(); whether x and x.reverse().reverse()
-       emitted the same SQL on all five dialects (true when the second reversal does not exist) *)
+       emitted the same SQL on all five dialects (true when the second reversal does not exist);
+       diffs = UpgradeOps([x]).as_diffs() and diffs_r = UpgradeOps([x.reverse()]).as_diffs(), the tuples compare_metadata reports *)
 | OutAuto (down : res (list top))
     (* upgrade_ops.reverse_into(DowngradeOps) of the comparator output *)
 | OutUp (down upup : res (list top)) (db_restored : bool).
@@ -28,18 +76,96 @@ Inductive c09_out :=
 
 Definition model_C09 (i : c09_in) : c09_out :=
   match i with
-  | InOp x => let r := reverse_top x in OutOp r (bind r reverse_top) true
+  | InOp x => let r := reverse_top x in OutOp r (bind r reverse_top) (as_diffs [x]) (bind r (fun x' => as_diffs [x'])) true
   | InUp up => let d := reverse_ops up in OutUp d (bind d reverse_ops) true
   | InAuto _ up => OutAuto (reverse_ops up)
   end.
+
+(* ------------------------------------------------------------------ inverse diff tuples *)
+
+(* the four existing_ values an AlterColumnOp diff entry reports (three in its dictionary, one in sixth position) *)
+Record astate := mkAS { as_type : option tok; as_nullable : option bool; as_default : tri tok; as_comment : option str }.
+Definition adiff_before (d : adiff) : astate :=
+  match d with
+  | ModifyType _ _ _ en esd ec et _ => mkAS et en esd ec
+  | ModifyNullable _ _ _ et esd ec en _ => mkAS et en esd ec
+  | ModifyDefault _ _ _ en et ec esd _ => mkAS et en esd ec
+  | ModifyComment _ _ _ en et esd ec _ => mkAS et en esd ec
+  end.
+(* ... and after the entry's own change *)
+Definition adiff_apply (st : astate) (d : adiff) : astate :=
+  match d with
+  | ModifyType _ _ _ _ _ _ _ mt => mkAS (Some mt) (as_nullable st) (as_default st) (as_comment st)
+  | ModifyNullable _ _ _ _ _ _ _ mn => mkAS (as_type st) (Some mn) (as_default st) (as_comment st)
+  | ModifyDefault _ _ _ _ _ _ _ msd => mkAS (as_type st) (as_nullable st) (SetTo msd) (as_comment st)
+  | ModifyComment _ _ _ _ _ _ _ mc => mkAS (as_type st) (as_nullable st) (as_default st) mc
+  end.
+(* the entry that undoes d when the column is in state `after`: same attribute, old and new value exchanged;
+   None when d does not say what the old value was.  (The column name is not part of the comparison: a rename is
+   not reported in the diff tuples.) *)
+Definition adiff_inverse (after : astate) (d : adiff) : option adiff :=
+  match d with
+  | ModifyType s t c _ _ _ (Some et) _ => Some (ModifyType s t c (as_nullable after) (as_default after) (as_comment after) (as_type after) et)
+  | ModifyType _ _ _ _ _ _ None _ => None
+  | ModifyNullable s t c _ _ _ (Some en) _ => Some (ModifyNullable s t c (as_type after) (as_default after) (as_comment after) (as_nullable after) en)
+  | ModifyNullable _ _ _ _ _ _ None _ => None
+  | ModifyDefault s t c _ _ _ (SetTo esd) _ => Some (ModifyDefault s t c (as_nullable after) (as_type after) (as_comment after) (as_default after) esd)
+  | ModifyDefault _ _ _ _ _ _ Unset _ => None
+  | ModifyComment s t c _ _ _ ec _ => Some (ModifyComment s t c (as_nullable after) (as_type after) (as_default after) (as_comment after) ec)
+  end.
+Definition adiff_set_col (c : str) (d : adiff) : adiff :=
+  match d with
+  | ModifyType s t _ a b e f g => ModifyType s t c a b e f g
+  | ModifyNullable s t _ a b e f g => ModifyNullable s t c a b e f g
+  | ModifyDefault s t _ a b e f g => ModifyDefault s t c a b e f g
+  | ModifyComment s t _ a b e f g => ModifyComment s t c a b e f g
+  end.
+Fixpoint all_some {A} (l : list (option A)) : option (list A) :=
+  match l with
+  | [] => Some []
+  | Some a :: r => match all_some r with Some r' => Some (a :: r') | None => None end
+  | None :: _ => None
+  end.
+Definition adiffs_inverse (l : list adiff) : option (list adiff) :=
+  match l with
+  | [] => Some []
+  | d :: _ => all_some (map (adiff_inverse (fold_left adiff_apply l (adiff_before d))) l)
+  end.
+
+(* inside a Table the unique=/index= flags spell nothing themselves *)
+Definition inv_diffb (d d' : difft) : bool :=
+  match d, d' with
+  | DfAddConstraint c, DfRemoveConstraint c' | DfRemoveConstraint c, DfAddConstraint c'
+  | DfAddFk c, DfRemoveFk c' | DfRemoveFk c, DfAddFk c' => decb constr_eq_dec c c'
+  | DfAddIndex i, DfRemoveIndex i' | DfRemoveIndex i, DfAddIndex i' => decb index_eq_dec i i'
+  | DfAddTable t, DfRemoveTable t' | DfRemoveTable t, DfAddTable t' => decb tdesc_eq_dec (erase_flags t) (erase_flags t')
+  | DfAddTableComment t s c None, DfRemoveTableComment t' s' => decb str_eq_dec t t' && decb ostr_eq_dec s s'
+  | DfAddTableComment t s c (Some e), DfAddTableComment t' s' c' e' =>
+      decb str_eq_dec t t' && decb ostr_eq_dec s s' && decb ostr_eq_dec c' (Some e) && decb ostr_eq_dec e' c
+  | DfRemoveTableComment t s, DfAddTableComment t' s' _ e' => decb str_eq_dec t t' && decb ostr_eq_dec s s' && negb (is_some e')
+  | DfAddColumn s t c, DfRemoveColumn s' t' c' | DfRemoveColumn s t c, DfAddColumn s' t' c' =>
+      decb ostr_eq_dec s s' && decb str_eq_dec t t' && decb column_eq_dec c c'
+  | DfAlter l, DfAlter l' =>
+      match adiffs_inverse l with
+      | Some e => decb (list_eq_dec adiff_eq_dec) (map (adiff_set_col []) l') (map (adiff_set_col []) e)
+      | None => false
+      end
+  | _, _ => false
+  end.
+Definition inv_diff (d d' : difft) : Prop := inv_diffb d d' = true.
+Definition leaf_count (x : top) : nat := match x with Leaf _ => 1%nat | ModifyTableOps _ _ l => length l end.
 
 (* ------------------------------------------------------------------ the property *)
 
 Definition C09_holds (i : c09_in) (o : c09_out) : Prop :=
   match i, o with
-  | InOp x, OutOp r rr sql =>
+  | InOp x, OutOp r rr df dfr sql =>
       (forall x', r = Ok x' -> tkind_of x' = inverse_tkind (tkind_of x)) /\
-      (forall x'', rr = Ok x'' -> ddl_equiv_top x'' x /\ sql = true)
+      (forall x'', rr = Ok x'' -> ddl_equiv_top x'' x /\ sql = true) /\
+      (* what compare_metadata would report for the reversed operation is the inverse report, in reverse order *)
+      (forall ds ds', df = Ok ds -> dfr = Ok ds' -> Forall2 inv_diff (rev ds) ds') /\
+      (* ... and as_diffs reports one tuple per leaf operation, also inside a container *)
+      (forall ds, df = Ok ds -> length ds = leaf_count x)
   | InUp up, OutUp down upup ok =>
       (forall d, down = Ok d -> kinds d = rev (map inverse_tkind (kinds up)) /\ ok = true) /\
       (forall u, upup = Ok u -> Forall2 ddl_equiv_top u up)
@@ -70,9 +196,11 @@ Definition ddl_equivb_top (a b : top) : bool :=
 
 Definition check_C09 (i : c09_in) (o : c09_out) : bool :=
   match i, o with
-  | InOp x, OutOp r rr sql =>
+  | InOp x, OutOp r rr df dfr sql =>
       match r with Ok x' => decb tkind_eq_dec (tkind_of x') (inverse_tkind (tkind_of x)) | Err _ => true end &&
-      match rr with Ok x'' => ddl_equivb_top x'' x && sql | Err _ => true end
+      match rr with Ok x'' => ddl_equivb_top x'' x && sql | Err _ => true end &&
+      match df, dfr with Ok ds, Ok ds' => forall2b inv_diffb (rev ds) ds' | _, _ => true end &&
+      match df with Ok ds => Nat.eqb (length ds) (leaf_count x) | Err _ => true end
   | InUp up, OutUp down upup ok =>
       match down with
       | Ok d => decb (list_eq_dec tkind_eq_dec) (kinds d) (rev (map inverse_tkind (kinds up))) && ok
@@ -91,7 +219,9 @@ Definition check_C09 (i : c09_in) (o : c09_out) : bool :=
    (the two SQL/database flags are measurements of the harness, not outputs of reverse()) *)
 Definition corr_C09 (i : c09_in) (o : c09_out) : bool :=
   match model_C09 i, o with
-  | OutOp r rr _, OutOp r' rr' _ => decb (res_eq_dec top_eq_dec) r r' && decb (res_eq_dec top_eq_dec) rr rr'
+  | OutOp r rr df dfr _, OutOp r' rr' df' dfr' _ =>
+      decb (res_eq_dec top_eq_dec) r r' && decb (res_eq_dec top_eq_dec) rr rr' && decb (res_eq_dec (list_eq_dec difft_eq_dec)) df df'
+      && decb (res_eq_dec (list_eq_dec difft_eq_dec)) dfr dfr'
   | OutUp d u _, OutUp d' u' _ =>
       decb (res_eq_dec (list_eq_dec top_eq_dec)) d d' && decb (res_eq_dec (list_eq_dec top_eq_dec)) u u'
   | OutAuto d, OutAuto d' => decb (res_eq_dec (list_eq_dec top_eq_dec)) d d'
@@ -136,9 +266,44 @@ Definition roundtrip_safe (o : op) : bool :=
   end.
 Definition roundtrip_safe_top (x : top) : bool :=
   match x with Leaf o => roundtrip_safe o | ModifyTableOps _ _ l => forallb roundtrip_safe l end.
+(* the class of the inverse-diff theorem: roundtrip_safe, and the stored original of a DropConstraintOp has no
+   option given as the empty string (the diff tuple shows the constraint object itself) *)
+Definition diff_safe (o : op) : bool :=
+  roundtrip_safe o && match o with DropConstraintOp _ _ _ _ (Some a) => addcons_stable a | _ => true end.
+Definition diff_safe_top (x : top) : bool :=
+  match x with Leaf o => diff_safe o | ModifyTableOps _ _ l => forallb diff_safe l end.
+
 Definition inclass_C09 (i : c09_in) : bool :=
   match i with
-  | InOp x => roundtrip_safe_top x
+  | InOp x => roundtrip_safe_top x && diff_safe_top x
   | InUp up => forallb roundtrip_safe_top up
   | InAuto tables up => undoable_ops up (db_of tables)     (* what the operations remember is what the database holds *)
+  end.
+
+(* ------------------------------------------------------------------ the class on which reverse is an involution
+   on the nose (reverse (reverse o) = o as objects, every field): besides roundtrip_safe, what the operation
+   stores beside its own fields must already be in the shape the from_* constructors give it *)
+Definition nonempty (s : str) : bool := match s with [] => false | _ => true end.
+Definition exact_class (o : op) : bool :=
+  match o with
+  | AddConstraintOp a => addcons_stable a
+  | DropConstraintOp n t ty s (Some a) =>
+      decb (option_eq_dec ctype_eq_dec) ty (Some (addcons_type a)) &&
+      decb addcons_eq_dec (from_constraint (retarget n t s (to_constraint a))) a
+  | CreateIndexOp c => negb (is_some (ci_if_not_exists c)) && nonempty (ci_table c)
+  | DropIndexOp n (Some t) s None (Some u) kw (Some r) =>
+      nonempty t && decb cindex_eq_dec r (mkCI n t (ci_cols r) s u None kw)
+  | CreateTableOp t None true =>
+      decb tdesc_eq_dec t (mkT (t_name t) (t_schema t) (map clear_flags (t_cols t))
+                               (map (onto_table (t_name t) (t_schema t)) (t_cons t)) [] (t_comment t) (t_prefixes t) (t_kw t))
+  | DropTableOp n s None c p kw (Some r) =>
+      tr_ci r && decb (list_eq_dec column_eq_dec) (tr_cols r) (map clear_flags (tr_cols r))
+      && decb (list_eq_dec constr_eq_dec) (tr_cons r) (map (onto_table n s) (tr_cons r))
+  | CreateTableCommentOp _ c e _ => is_some c || negb (is_some e)
+  | DropTableCommentOp _ _ _ => true
+  | AlterColumnOp a => alter_has_existing a
+  | AddColumnOp _ _ _ => true
+  | DropColumnOp t cn s kw (Some (t0, c, s0)) =>
+      N.eqb kw 0 && decb str_eq_dec cn (c_name c) && decb str_eq_dec t0 t && decb ostr_eq_dec s0 s
+  | _ => false
   end.
